@@ -239,7 +239,7 @@ void ezc3d::ParametersNS::Parameters::write(std::fstream &f) const
     f.write(reinterpret_cast<const char*>(&processorType), ezc3d::BYTE);
 
     // Write each groups
-    std::streampos dataStartPosition; // Special parameter in POINT group
+    std::streampos dataStartPosition(-1); // Special parameter in POINT group
     for (size_t i=0; i < nbGroups(); ++i)
         if (!group(i).name().empty()) // Unused group ids are held by unnamed placeholders, they have no record in the file
             group(i).write(f, -static_cast<int>(i+1), dataStartPosition);
@@ -259,14 +259,16 @@ void ezc3d::ParametersNS::Parameters::write(std::fstream &f) const
     f.seekg(actualPos);
 
     // Go back to data start blank space and write the actual position
-    actualPos = f.tellg();
-    f.seekg(dataStartPosition);
-    nBlocksToNext = int(actualPos)/512;
-    if (int(actualPos) % 512 > 0)
-        ++nBlocksToNext;
-    ++nBlocksToNext; // Blocks are 1-based in a C3D file
-    f.write(reinterpret_cast<const char*>(&nBlocksToNext), ezc3d::BYTE);
-    f.seekg(actualPos);
+    if (dataStartPosition != std::streampos(-1)){ // If there is a DATA_START parameter
+        actualPos = f.tellg();
+        f.seekg(dataStartPosition);
+        nBlocksToNext = int(actualPos)/512;
+        if (int(actualPos) % 512 > 0)
+            ++nBlocksToNext;
+        ++nBlocksToNext; // Blocks are 1-based in a C3D file
+        f.write(reinterpret_cast<const char*>(&nBlocksToNext), ezc3d::BYTE);
+        f.seekg(actualPos);
+    }
 }
 
 size_t ezc3d::ParametersNS::Parameters::parametersStart() const
